@@ -115,6 +115,7 @@ type Exec struct {
 	cmd          cmdEnv
 	deadline     time.Time
 	aliasResolve bool // resolve select-over-store aliasing with the solver under the path condition
+	lazy         bool // lazy goroutine schedule (vSchedLazy)
 	aliasQ       int
 
 	curThread  int
@@ -1540,7 +1541,10 @@ func (e *Exec) copyBuiltin(dstV, srcV Value) Value {
 	}
 	db := e.sliceBytes(dst)
 	if n.op != OpConst {
-		e.unsupported("copy with symbolic element count")
+		n = e.enumSmall(n, 16, "copy: element count")
+		if n.val == 0 {
+			return n
+		}
 	}
 	if n.val > 4096 {
 		e.unsupported("copy of more than 4096 elements")
@@ -1680,6 +1684,15 @@ func (e *Exec) ctxCause(id int) int {
 // (deterministic "as soon as possible" schedule; every later schedule equals a
 // later instant of the event that woke it).  Returns whether anything ran.
 func (e *Exec) wake() bool {
+	if e.lazy {
+		// lazy schedule (vSchedLazy): runnable goroutines stay where they are until
+		// the main goroutine blocks or the harness settles
+		return false
+	}
+	return e.wakeNow()
+}
+
+func (e *Exec) wakeNow() bool {
 	any := false
 	for progress := true; progress; {
 		progress = false
@@ -1736,7 +1749,7 @@ func (e *Exec) block(ready func() bool, what string) {
 	}
 	if e.curThread == 0 {
 		for !ready() {
-			if !e.wake() {
+			if !e.wakeNow() {
 				panic(pathEnd{"undecided", "main goroutine blocked forever (" + what + "): deadlock in the modelled schedule"})
 			}
 		}
@@ -2259,6 +2272,29 @@ func (e *Exec) selectR(arr, idx *Term) *Term {
 		if eq.IsFalse() {
 			cur = cur.a[0]
 			continue
+		}
+		// a long run of stores at constant indices (an installed ROM image): one
+		// query decides whether idx can hit any of them
+		if cur.a[1].op == OpConst {
+			run, end := 0, cur
+			var any *Term
+			for end.op == OpStore && end.a[1].op == OpConst && run < 4096 {
+				q := e.st.Eq(end.a[1], idx)
+				if any == nil {
+					any = q
+				} else {
+					any = e.st.Or(any, q)
+				}
+				end = end.a[0]
+				run++
+			}
+			if run > 4 {
+				e.aliasQ++
+				if e.feasible(any) == Unsat {
+					cur = end
+					continue
+				}
+			}
 		}
 		e.aliasQ++
 		if e.feasible(eq) == Unsat {
